@@ -311,13 +311,13 @@ TIERS = {
     'thorough': {
         'bfs': [('reshuffle-n4-2it', 4, 2, ['reshuffle'], 1),
                 ('reshuffle-n2-3it', 2, 3, ['reshuffle'], 1),
-                ('local-n3-3it', 3, 3, ['local'], 1),
+                ('local-n2-3it', 2, 3, ['local'], 1),
                 ('local-n4-1it', 4, 1, ['local'], 1),
                 ('local-n3-2it', 3, 2, ['local'], 1),
                 ('once-n4-2it', 4, 2, ['once'], 1),
-                ('tile-choice-n4', 4, 1, ['choice'], 1),
+                ('choice-n4', 4, 1, ['choice'], 1),
                 ('tile-n3-r3', 3, 1, ['tile'], 3)],
-        'seeds': 4000, 'seed_maxn': 12, 'validate_budget': 120000,
+        'seeds': 4000, 'seed_maxn': 12, 'validate_budget': 200000,
     },
 }
 
@@ -606,6 +606,15 @@ def replay(prop, path):
         rp = json.load(f)
     r = rp['record']
     how = r.get('how', '')
+    try:
+        return _replay(prop, r, how)
+    except Infeasible:
+        print('the recorded rng answer can no longer be given to the call the code makes '
+              '(the code asks the generator something else now)')
+        return 0
+
+
+def _replay(prop, r, how):
     if how == 'tlc-behaviour' or how.startswith('extreme'):
         body = drive(r['sc'], [h['it'] for h in r['hist']],
                      Script(fifo=r['sc']['bp'], sel=r['sc']['sel']), answers=r['hist'])
